@@ -47,6 +47,20 @@ func (c *clipperD) VerifSetOptions(preserveCollinear, reverseSolution bool) {
 // dumps exactly when their states are structurally identical.
 func (c *clipper64) VerifDumpState() string { return verifDump(reflect.ValueOf(c.clipperBase)) }
 
+// VerifDumpStateFull also serialises slice capacities and the elements between
+// length and capacity (stale objects a later call could pick up again).
+func (c *clipper64) VerifDumpStateFull() string {
+	return verifDumpOpt(reflect.ValueOf(c.clipperBase), true)
+}
+
+func (c *clipperD) VerifDumpStateFull() string {
+	return fmt.Sprintf("scale=%v inv=%v ", c.scale, c.invScale) + verifDumpOpt(reflect.ValueOf(c.clipperBase), true)
+}
+
+func (co *ClipperOffset) VerifDumpStateFull() string {
+	return verifDumpOpt(reflect.ValueOf(co), true)
+}
+
 func (c *clipperD) VerifDumpState() string {
 	return fmt.Sprintf("scale=%v inv=%v ", c.scale, c.invScale) + verifDump(reflect.ValueOf(c.clipperBase))
 }
@@ -55,14 +69,16 @@ func (co *ClipperOffset) VerifDumpState() string { return verifDump(reflect.Valu
 
 func (r *RectClip64) VerifDumpState() string { return verifDump(reflect.ValueOf(r)) }
 
-func verifDump(v reflect.Value) string {
+func verifDump(v reflect.Value) string { return verifDumpOpt(v, false) }
+
+func verifDumpOpt(v reflect.Value, full bool) string {
 	var sb strings.Builder
 	seen := map[uintptr]int{}
-	verifDumpRec(&sb, v, seen)
+	verifDumpRec(&sb, v, seen, full)
 	return sb.String()
 }
 
-func verifDumpRec(sb *strings.Builder, v reflect.Value, seen map[uintptr]int) {
+func verifDumpRec(sb *strings.Builder, v reflect.Value, seen map[uintptr]int, verifDumpFull bool) {
 	switch v.Kind() {
 	case reflect.Bool:
 		fmt.Fprintf(sb, "%v", v.Bool())
@@ -87,7 +103,7 @@ func verifDumpRec(sb *strings.Builder, v reflect.Value, seen map[uintptr]int) {
 		id := len(seen)
 		seen[p] = id
 		fmt.Fprintf(sb, "&%d", id)
-		verifDumpRec(sb, v.Elem(), seen)
+		verifDumpRec(sb, v.Elem(), seen, verifDumpFull)
 	case reflect.Struct:
 		sb.WriteString("{")
 		t := v.Type()
@@ -97,7 +113,7 @@ func verifDumpRec(sb *strings.Builder, v reflect.Value, seen map[uintptr]int) {
 			}
 			sb.WriteString(t.Field(i).Name)
 			sb.WriteString(":")
-			verifDumpRec(sb, v.Field(i), seen)
+			verifDumpRec(sb, v.Field(i), seen, verifDumpFull)
 		}
 		sb.WriteString("}")
 	case reflect.Slice:
@@ -105,12 +121,17 @@ func verifDumpRec(sb *strings.Builder, v reflect.Value, seen map[uintptr]int) {
 			sb.WriteString("nil[]")
 			return
 		}
-		fmt.Fprintf(sb, "[%d:", v.Len())
+		n := v.Len()
+		if verifDumpFull && v.Cap() > n {
+			fmt.Fprintf(sb, "cap%d", v.Cap())
+			v = v.Slice(0, v.Cap())
+		}
+		fmt.Fprintf(sb, "[%d:", n)
 		for i := 0; i < v.Len(); i++ {
 			if i > 0 {
 				sb.WriteString(" ")
 			}
-			verifDumpRec(sb, v.Index(i), seen)
+			verifDumpRec(sb, v.Index(i), seen, verifDumpFull)
 		}
 		sb.WriteString("]")
 	case reflect.Array:
@@ -119,7 +140,7 @@ func verifDumpRec(sb *strings.Builder, v reflect.Value, seen map[uintptr]int) {
 			if i > 0 {
 				sb.WriteString(" ")
 			}
-			verifDumpRec(sb, v.Index(i), seen)
+			verifDumpRec(sb, v.Index(i), seen, verifDumpFull)
 		}
 		sb.WriteString("]")
 	case reflect.Func:
@@ -132,7 +153,7 @@ func verifDumpRec(sb *strings.Builder, v reflect.Value, seen map[uintptr]int) {
 		if v.IsNil() {
 			sb.WriteString("nilif")
 		} else {
-			verifDumpRec(sb, v.Elem(), seen)
+			verifDumpRec(sb, v.Elem(), seen, verifDumpFull)
 		}
 	default:
 		fmt.Fprintf(sb, "?%s", v.Kind())
